@@ -91,6 +91,13 @@ def c01(ctx):
     rb, rsk, rtot = engines.validate_records(ctx, ro, shards=8, workers=2, label="reached")
     engines.absorb_records(ctx, rb, rsk, rtot, types={"moves", "panic"})
     ctx.extra["positions_reached_by_the_codes_own_moves"] = rtot
+    # histories with undos: the code's move lists along walks (undo bursts, queries in between), judged against
+    # the position the history truly leads to (the model is NOT resynchronised with the code's board here)
+    import props_engine
+    hb, hev, hh, hsk = props_engine.run_traces(ctx, "walk", 8, 4 if quick else 20, 160 if quick else 300, tlc_env={"RESYNC": "0"}, label="c01walk")
+    props_engine.absorb_bad(ctx, hb)
+    ctx.evaluations += hev
+    ctx.extra["history_events_validated"] = hev
     geo = engines.oracle_replay(ctx, ep_geometry_family(), 0, ["C01"], label="epgeometry")
     engines.absorb_replay(ctx, geo)
     ctx.extra["ep_geometry_positions"] = geo["records"]
